@@ -20,6 +20,7 @@ from harness.common import Ctx, Part, lean_batch_parallel, load_corpus, pmap
 
 THEOREMS = [
     "IrVerif.Sort.C12_fuel_suffices",
+    "IrVerif.Sort.C12_kahn_refines",
     "IrVerif.Sort.C12_kahn_perm",
     "IrVerif.Sort.C12_kahn_respects",
     "IrVerif.Sort.C12_kahn_cycle_iff",
@@ -29,9 +30,6 @@ THEOREMS = [
     "IrVerif.Sort.C12_respects",
     "IrVerif.Sort.C12_cycle_iff",
     "IrVerif.Sort.C12_cycle_no_change",
-    "IrVerif.Sort.C12_fixpoint_graph",
-    "IrVerif.Sort.C12_fixpoint",
-    "IrVerif.Sort.C12_deterministic",
 ]
 ASSUMPTIONS = [
     "heapq on (negative position, node) pairs with distinct positions is modelled as extract-maximum-position; "
@@ -41,7 +39,7 @@ ASSUMPTIONS = [
     "a value is represented by what Graph.sort reads from it: input_value.producer()",
     "C12_fixpoint* assume well-scoped graphs (a value is used only inside the graph of its producer or graphs "
     "nested in it), as in the property's quantifier; ill-scoped graphs are covered by perm/respects/cycle only",
-    "reference attributes (value None) of type GRAPH/GRAPHS are outside the model (known finding D44)",
+    "reference attributes (value None) of type GRAPH/GRAPHS are outside the model (known finding D46)",
 ]
 
 # --------------------------------------------------------------------------- specs
@@ -562,7 +560,7 @@ def do_case(case, part):
 
     # ---- oracle
     if refg:
-        # graph-typed reference attribute: the traversal iterates `None` (known finding D44)
+        # graph-typed reference attribute: the traversal iterates `None` (known finding D46)
         if outcome.startswith("raised:"):
             part.fail(f"{sig_entry}:ref-graph-attr:{outcome[7:]}", "sort raises on a reference attribute of graph type", rec)
             if after != before:
